@@ -134,6 +134,11 @@ UidOfCol(s, c) == IF c >= 0 /\ c < NCol(s) THEN s.cols[c + 1].uid ELSE -1
 UidOfName(s, n) == IF ColByName(s, n) > 0 THEN s.cols[ColByName(s, n)].uid ELSE -1
 UidOfRole(s, t, r) == IF t \in Types /\ r >= 0 /\ r < Len(s.loc[t]) THEN s.loc[t][r + 1] ELSE -1
 
+KnownUids(s, names) == LET F[k \in 0..Len(names)] ==
+                             IF k = 0 THEN <<>>
+                             ELSE IF UidOfName(s, names[k]) >= 0 THEN Append(F[k-1], UidOfName(s, names[k])) ELSE F[k-1]
+                       IN F[Len(names)]
+
 AddCols(s, nadd, radix, t, r, val) ==
   LET base == IF nadd = 1 THEN <<radix>> ELSE [k \in 1..nadd |-> radix \o <<"-", Digit(k)>>]
       F[k \in 0..nadd] ==
@@ -203,6 +208,29 @@ Do(c, s) ==
     [] c.op = "duplicateColumnByUID" ->
          IF c.uid \in Uids(s) /\ c.uid2 \in Uids(s)
          THEN [s EXCEPT !.cols[ColOf(s, c.uid2)].cells = s.cols[ColOf(s, c.uid)].cells] ELSE s
+    [] c.op = "copyByUID" ->
+         IF c.uid \in Uids(s) /\ c.uid2 \in Uids(s)
+         THEN [s EXCEPT !.cols[ColOf(s, c.uid2)].cells = s.cols[ColOf(s, c.uid)].cells] ELSE s
+    [] c.op = "addSelection" ->          \* new 0/1 column holding the (unique) selection role
+         LET s1 == AddCols(s, 1, c.radix, "sel", 0, 0)
+         IN [s1 EXCEPT !.cols[Len(s1.cols)].cells = [i \in 1..s.nech |-> (i + c.k) % 2]]
+    [] c.op = "addColumns" ->            \* one column loaded from an array
+         LET s1 == AddCols(s, 1, c.radix, c.t, c.r, 0)
+         IN [s1 EXCEPT !.cols[Len(s1.cols)].cells = [i \in 1..s.nech |-> c.val + i - 1]]
+    [] c.op = "deleteColumnsByUIDRange" -> DelUids(s, [k \in 1..c.n |-> c.uid + k - 1])
+    [] c.op = "setLocatorsByUIDRange" ->
+         LET l0 == IF c.clean THEN Cleared(s.loc, c.t) ELSE s.loc
+         IN [s EXCEPT !.loc = PlaceList(s, l0, c.t, c.r, [k \in 1..c.n |-> c.uid + k - 1])]
+    [] c.op = "setLocators" ->           \* names are patterns: those matching no column are dropped
+         LET us == KnownUids(s, c.names)
+             l0 == IF c.clean THEN Cleared(s.loc, c.t) ELSE s.loc
+         IN IF us = <<>> THEN s ELSE [s EXCEPT !.loc = PlaceList(s, l0, c.t, c.r, us)]
+    [] c.op = "deleteSamples" ->
+         IF s.grid \/ \E k \in DOMAIN c.iechs : c.iechs[k] < 0 \/ c.iechs[k] >= s.nech THEN s
+         ELSE LET keep == {i \in 1..s.nech : \A k \in DOMAIN c.iechs : c.iechs[k] + 1 # i} IN
+              [s EXCEPT !.nech = Cardinality(keep),
+                        !.cols = [i \in DOMAIN s.cols |->
+                                    [s.cols[i] EXCEPT !.cells = SelectIdx(s.cols[i].cells, LAMBDA e : e \in keep)]]]
     [] c.op = "copy" -> s
     [] OTHER -> s
 
@@ -223,7 +251,12 @@ RankInRange(c, s) ==
     [] c.op = "setLocatorsByColIdx" ->
          LET l0 == IF c.clean THEN Cleared(s.loc, c.t) ELSE s.loc
          IN AllInRange(s, l0, c.t, c.r, [k \in DOMAIN c.cols |-> UidOfCol(s, c.cols[k])])
-    [] c.op = "addColumnsByConstant" ->
+    [] c.op = "setLocatorsByUIDRange" ->
+         AllInRange(s, IF c.clean THEN Cleared(s.loc, c.t) ELSE s.loc, c.t, c.r, [k \in 1..c.n |-> c.uid + k - 1])
+    [] c.op = "setLocators" ->
+         LET us == KnownUids(s, c.names) IN
+         us = <<>> \/ AllInRange(s, IF c.clean THEN Cleared(s.loc, c.t) ELSE s.loc, c.t, c.r, us)
+    [] c.op \in {"addColumnsByConstant", "addColumns"} ->
          c.t \notin Types \/ c.r < 0 \/ c.r <= Len(s.loc[c.t])
     [] OTHER -> TRUE
 
@@ -244,7 +277,7 @@ NamesOK(c, pre, post) ==
      LET u == post.cols[i].uid IN
      IF u \in Uids(pre) /\ pre.cols[ColOf(pre, u)].name = ref.cols[i].name
      THEN post.cols[i].name = ref.cols[i].name                     \* frame
-     ELSE LET want == CASE c.op = "addColumnsByConstant" -> c.radix
+     ELSE LET want == CASE c.op \in {"addColumnsByConstant", "addSelection", "addColumns"} -> c.radix
                         [] c.op \in {"setName", "setNameByUID", "setNameByColIdx"} -> c.new
                         [] OTHER -> ref.cols[i].name
               others == {post.cols[j].name : j \in DOMAIN post.cols \ {i}}
@@ -286,10 +319,10 @@ DPairs(S) == {p \in Pairs(S) : p[1] # p[2]}
 
 Catalogue ==
        \* (names are regular expressions for the name-based entry points: "a.1" would also match
-       \*  "a-1", so multiple creation -- which names its columns radix-1, radix-2 -- uses radix "b" only)
+       \*  "a-1", so multiple creation -- which names its columns radix-1, radix-2 -- uses a radix of its own, "c")
        {[op |-> "addColumnsByConstant", nadd |-> 1, radix |-> x, t |-> t, r |-> r, val |-> 1] :
             x \in RadixArgs, t \in RoleArgs, r \in {-1, 0, 1}}
-  \cup {[op |-> "addColumnsByConstant", nadd |-> 2, radix |-> <<"b">>, t |-> t, r |-> r, val |-> 1] :
+  \cup {[op |-> "addColumnsByConstant", nadd |-> 2, radix |-> <<"c">>, t |-> t, r |-> r, val |-> 1] :
             t \in RoleArgs, r \in {-1, 0, 1}}
   \cup {[op |-> "deleteColumnByUID", uid |-> u] : u \in UidArgs}
   \cup {[op |-> "deleteColumnByColIdx", col |-> k] : k \in ColArgs}
@@ -320,11 +353,22 @@ Catalogue ==
   \cup {[op |-> "setLocVariable", t |-> t, r |-> r, iech |-> i, val |-> 3] : t \in Types, r \in {0, 1}, i \in IechArgs}
   \cup {[op |-> "setColumnByUID", uid |-> u, val |-> 40] : u \in UidArgs}
   \cup {[op |-> "duplicateColumnByUID", uid |-> p[1], uid2 |-> p[2]] : p \in DPairs(UidArgs)}
+  \cup {[op |-> "copyByUID", uid |-> p[1], uid2 |-> p[2]] : p \in DPairs(UidArgs)}
+  \cup {[op |-> "addSelection", radix |-> x, k |-> k] : x \in RadixArgs, k \in {0, 1}}
+  \cup {[op |-> "addColumns", radix |-> x, t |-> t, r |-> r, val |-> 60] : x \in RadixArgs, t \in RoleArgs, r \in {-1, 0}}
+  \cup {[op |-> "deleteColumnsByUIDRange", uid |-> u, n |-> n] : u \in UidArgs, n \in {1, 2}}
+  \cup {[op |-> "setLocatorsByUIDRange", uid |-> u, n |-> 2, t |-> t, r |-> r, clean |-> b] :
+            u \in UidArgs, t \in Types, r \in {-1, 0}, b \in BOOLEAN}
+  \cup {[op |-> "setLocators", names |-> p, t |-> t, r |-> r, clean |-> b] :
+            p \in DPairs({<<"a">>, <<"b">>, <<"q">>}), t \in Types, r \in {-1, 0}, b \in BOOLEAN}
+  \cup {[op |-> "deleteSamples", iechs |-> p] : p \in DPairs(IechArgs)}
   \cup {[op |-> "copy"]}
 
 \* Entries that would leave the bounds are not applied (same rule in the harness)
 WithinBounds(c, s) ==
   CASE c.op = "addColumnsByConstant" -> NCol(s) + c.nadd <= MaxCols /\ s.nuid + c.nadd <= MaxUid
+    \* ("if the input array is empty, nothing is done": a Db without sample is left aside)
+    [] c.op \in {"addSelection", "addColumns"} -> NCol(s) + 1 <= MaxCols /\ s.nuid + 1 <= MaxUid /\ s.nech >= 1
     [] c.op = "addSamples" -> s.nech + c.n <= MaxNech
     [] OTHER -> TRUE
 
